@@ -228,10 +228,11 @@ pub fn repro_events<W: Write>(em: &mut Emitter<W>, thorough: bool, seed: u64) {
         let n = rng.gen_range(2..=7);
         let w: Vec<i64> = match i % 3 { 0 => vec![], 1 => vec![1, 2, 3], _ => vec![1, 8] };
         let ops = crate::cases::random_graph(&mut rng, specs, n, 0.4, &w);
-        let g = build(specs, &ops);
         let mut rr = ChaCha8Rng::seed_from_u64(i as u64);
         let mut outs: Vec<Value> = vec![];
-        for _ in 0..3 {
+        for _ in 0..4 {
+            // an equal graph built afresh for every repetition: its hash-based stores iterate in their own order
+            let g = build(specs, &ops);
             let mut r1 = rr.clone();
             outs.push(json!({
                 "paths": crate::algo::suite_paths(&g, 0), "centrality": crate::algo::suite_centrality(&g),
@@ -248,7 +249,7 @@ pub fn repro_events<W: Write>(em: &mut Emitter<W>, thorough: bool, seed: u64) {
                 differing.push(k);
             }
         }
-        em.emit(json!({"parent": 0, "op": {"k": "repro_pure"}, "case": case_json(specs, &ops, "random"), "calls": 3,
+        em.emit(json!({"parent": 0, "op": {"k": "repro_pure"}, "case": case_json(specs, &ops, "random"), "calls": 4,
             "distinct_total": distinct_of(&outs).len(), "differing_suites": differing}));
     }
     // non-randomised algorithms on graphs large enough for the data-parallel code paths (more than 20
@@ -258,8 +259,8 @@ pub fn repro_events<W: Write>(em: &mut Emitter<W>, thorough: bool, seed: u64) {
         let n = rng.gen_range(21..=26);
         let w: Vec<i64> = match i % 2 { 0 => vec![], _ => vec![1, 2, 3] };
         let ops = crate::cases::random_graph(&mut rng, specs, n, 0.12, &w);
-        let g = build(specs, &ops);
         let run = || -> Value {
+            let g = build(specs, &ops);
             json!({"paths": crate::algo::suite_paths(&g, 0), "centrality": crate::algo::suite_centrality(&g),
                    "components": canon_components(crate::algo2::suite_components(&g, 1))})
         };
